@@ -329,11 +329,15 @@ def runtime_checks():
                         'values of construction time', got=u.detach().reshape(-1).tolist(), want=2.2, derivative=du.reshape(-1).tolist()))
     u1t = torch.tensor(2.0, dtype=torch.float64, requires_grad=True)      # a learnable right-end value
     c = BundleDirichletBVP(t_0=0.0, u_0=None, t_1=1.0, u_1=u1t, bundle_param_lookup={'u_0': 1})
-    out = c.enforce(net, torch.full((n, 1), 1.0, dtype=torch.float64), *th)
-    g, = torch.autograd.grad(out.sum(), u1t, allow_unused=True)
-    if g is None or abs(float(g) - n) > 1e-12:
-        bad.append(dict(case='learnable (requires_grad) constructor parameter', violated='u(t_1) does not depend on the u_1 tensor given to the constructor',
-                        gradient=None if g is None else float(g), want=n))
+    try:
+        out = c.enforce(net, torch.full((n, 1), 1.0, dtype=torch.float64), *th)
+        g, = torch.autograd.grad(out.sum(), u1t, allow_unused=True)
+        if g is None or abs(float(g) - n) > 1e-12:
+            bad.append(dict(case='learnable (requires_grad) constructor parameter', violated='u(t_1) does not depend on the u_1 tensor given to the constructor',
+                            gradient=None if g is None else float(g), want=n))
+    except Exception as e:
+        bad.append(dict(case='learnable (requires_grad) constructor parameter', violated='enforce() raises when a boundary value is a leaf tensor that requires grad',
+                        error=f'{type(e).__name__}: {e}'))
     # conditions built without a table (or with an empty one) do not share one: filling in one table leaves the others alone
     c1, c2 = BundleIVP(t_0=0.3, u_0=1.9), BundleIVP(t_0=0.3, u_0=0.4)
     c3, c4 = BundleDirichletBVP(0.0, 0.5, 1.0, 2.0), BundleIVP(t_0=0.3, u_0=0.4, bundle_param_lookup={})
@@ -375,6 +379,47 @@ def runtime_checks():
             if got.dtype != torch.float64 or not torch.allclose(got, t64(want), rtol=0, atol=1e-14):
                 bad.append(dict(case='condition used in float32 first, then in float64', condition=type(c).__name__, violated='constructor values are not '
                                 'reproduced to double precision', max_abs_error=float((got.double() - want).abs().max())))
+    # the extra columns belong to the caller: enforcing a condition leaves them as they are (they are used again, e.g. for the other end)
+    cols = [c_.clone() for c_ in th]
+    keep = [c_.clone() for c_ in cols]
+    for c in (BundleDirichletBVP(t_0=0.0, u_0=None, t_1=1.0, u_1=None, bundle_param_lookup={'u_0': 0, 'u_1': 1}),
+              BundleIVP(t_0=None, u_0=None, u_0_prime=None, bundle_param_lookup={'t_0': 2, 'u_0': 0, 'u_0_prime': 1})):
+        c.enforce(net, torch.full((n, 1), 0.37), *cols)
+        if any(not torch.equal(a_, b_) for a_, b_ in zip(cols, keep)):
+            bad.append(dict(case='extra columns after enforce()', condition=type(c).__name__, violated='a column tensor of the caller was modified in place',
+                            changed=[i for i, (a_, b_) in enumerate(zip(cols, keep)) if not torch.equal(a_, b_)]))
+            break
+    # end points from the columns, far from the origin compared with the length of the domain (calendar years, time stamps), values representable
+    # in the working precision: both ends are reproduced to rounding in either precision
+    import random as _r
+    rr_ = _r.Random(11)
+    for dt_, base in ((torch.float32, 2020.0), (torch.float64, 1.7e9)):
+        t0c = torch.tensor([[base + rr_.uniform(0, 3)] for _ in range(n)], dtype=dt_)
+        t1c = t0c + torch.tensor([[rr_.uniform(0.3, 1.5)] for _ in range(n)], dtype=dt_)
+        u0c, u1c = torch.tensor([[rr_.uniform(-2, 2)] for _ in range(n)], dtype=dt_), torch.tensor([[rr_.uniform(-2, 2)] for _ in range(n)], dtype=dt_)
+        c = BundleDirichletBVP(t_0=None, u_0=None, t_1=None, u_1=None, bundle_param_lookup={'t_0': 0, 'u_0': 1, 't_1': 2, 'u_1': 3})
+        f_ = lambda x: torch.sin(x[:, :1] * 1e-3) + 0.2
+        e0 = float((c.enforce(f_, t0c.clone(), t0c, u0c, t1c, u1c).detach() - u0c).abs().max())
+        e1 = float((c.enforce(f_, t1c.clone(), t0c, u0c, t1c, u1c).detach() - u1c).abs().max())
+        eps = torch.finfo(dt_).eps
+        if e0 > 16 * eps or e1 > 16 * eps:
+            bad.append(dict(case='bundled end points far from the origin', dtype=str(dt_), around=base, violated='end values not reproduced to rounding',
+                            left_error_in_units_of_roundoff=e0 / eps, right_error_in_units_of_roundoff=e1 / eps))
+    # very short domains whose end points come from the columns (nanosecond windows in SI seconds): u(t_1 row) is the row's u_1
+    for dt_, length in ((torch.float64, 1.0e-9), (torch.float64, 3.0e-12)):
+        try:
+            t0c = torch.tensor([[0.0], [1.0], [0.5], [2.0], [0.25]], dtype=dt_)
+            t1c = t0c + length
+            u1c = torch.tensor([[0.3], [-1.2], [2.0], [0.7], [-0.4]], dtype=dt_)
+            c = BundleDirichletBVP(t_0=None, u_0=5.0, t_1=None, u_1=None, bundle_param_lookup={'t_0': 0, 't_1': 1, 'u_1': 2})
+            netb = (lambda x: net(x[:, :4].to(pdt)).to(dt_)) if True else None
+            got1 = c.enforce(lambda x: torch.sin(x[:, :1] * 3) + 0.2, t1c.clone(), t0c, t1c, u1c).detach()
+            got0 = c.enforce(lambda x: torch.sin(x[:, :1] * 3) + 0.2, t0c.clone(), t0c, t1c, u1c).detach()
+            if not torch.allclose(got1, u1c, rtol=0, atol=1e-5) or not torch.allclose(got0, torch.full_like(got0, 5.0), rtol=0, atol=1e-5):
+                bad.append(dict(case='bundled end points of a very short domain', length=length, dtype=str(dt_), violated='u(t_1 row) is not the row\'s u_1 (or u(t_0 row) not u_0)',
+                                right=got1.reshape(-1).tolist(), want_right=u1c.reshape(-1).tolist(), left=got0.reshape(-1).tolist()))
+        except Exception as e:
+            bad.append(dict(case='bundled end points of a very short domain', length=length, error=f'{type(e).__name__}: {e}'))
     # rows whose u_0 dwarfs u_1: the right-end value is still exactly the row's u_1
     big = [torch.full((n, 1), 1.0e9), torch.full((n, 1), 1.25e-3), th[2]]
     c = BundleDirichletBVP(t_0=0.0, u_0=None, t_1=1.0, u_1=None, bundle_param_lookup={'u_0': 0, 'u_1': 1})
